@@ -139,10 +139,10 @@ func verrClass(err error) string {
 	return "(VEGetSig " + perrClass(err) + ")"
 }
 
-func coqAddrs(as []common.Address) string {
+func coqAddrs(p *Pool, as []common.Address) string {
 	var items []string
 	for _, a := range as {
-		items = append(items, hx.CoqBytes(a[:]))
+		items = append(items, p.CB(a[:]))
 	}
 	return hx.CoqList(items)
 }
@@ -150,7 +150,7 @@ func coqAddrs(as []common.Address) string {
 // Evaluate decodes raw twice and runs checkTransactionSignatures (through the hook, for the
 // error class and tx.SignedAddr) and VerifyTransaction (for the error code) on fresh copies.
 // ok=false: the decoder refused the bytes.
-func Evaluate(raw []byte) (o Outcome, ok bool) {
+func Evaluate(pl *Pool, raw []byte) (o Outcome, ok bool) {
 	tx, err := types.TransactionFromRawBytes(append([]byte{}, raw...))
 	if err != nil {
 		return o, false
@@ -170,7 +170,7 @@ func Evaluate(raw []byte) (o Outcome, ok bool) {
 		o.Accepted = true
 		o.Addrs = append([]common.Address{}, tx.SignedAddr...)
 		sort.Slice(o.Addrs, func(i, j int) bool { return bytes.Compare(o.Addrs[i][:], o.Addrs[j][:]) < 0 })
-		o.Obs, o.Class = "(OAccept "+coqAddrs(o.Addrs)+")", "accept"
+		o.Obs, o.Class = "(OAccept "+coqAddrs(pl, o.Addrs)+")", "accept"
 	}
 	tx2, err := types.TransactionFromRawBytes(append([]byte{}, raw...))
 	if err != nil {
@@ -370,7 +370,7 @@ func (w *World) Classify(sb []byte, hash []byte, cands []*Key, hashCoq string) A
 		}
 	}
 	if a.Signer != nil {
-		m := hx.CoqBytes(a.Msg)
+		m := w.P.CB(a.Msg)
 		if bytes.Equal(a.Msg, hash) {
 			m = hashCoq
 		}
@@ -430,7 +430,7 @@ func (w *World) Tables(tx *types.Transaction, extra []*Key, hashCoq string) (coq
 	addH := func(in []byte) {
 		if !seenH[string(in)] {
 			seenH[string(in)] = true
-			hItems = append(hItems, fmt.Sprintf("(%s, %s)", w.P.CB(in), hx.CoqBytes(Hash160(in))))
+			hItems = append(hItems, fmt.Sprintf("(%s, %s)", w.P.CB(in), w.P.CB(Hash160(in))))
 		}
 	}
 	for _, g := range tx.Sigs {
@@ -511,7 +511,7 @@ func (w *World) VtxCoq(tx *types.Transaction, hashCoq string) string {
 	for _, g := range tx.Sigs {
 		sigs = append(sigs, fmt.Sprintf("mkRawSig %s %s", w.P.CB(g.Invoke), w.P.CB(g.Verify)))
 	}
-	return fmt.Sprintf("(mkVtx %s %s %s %s)", hx.CoqBool(tx.IsEipTx()), hashCoq, hx.CoqBytes(tx.Payer[:]), hx.CoqList(sigs))
+	return fmt.Sprintf("(mkVtx %s %s %s %s)", hx.CoqBool(tx.IsEipTx()), hashCoq, w.P.CB(tx.Payer[:]), hx.CoqList(sigs))
 }
 
 // EmitAbs emits CAbs cases (and checks on the Go side) for the (key, signature) pairs of the
@@ -552,7 +552,7 @@ func (w *World) EmitAbs(tx *types.Transaction, views []SetView, abs map[string]A
 					w.C.Fail("sigmodel:own-signature-rejected", "a signature made by the key over this hash did not verify", in,
 						map[string]interface{}{"key": hx.Hex(k.Ser), "sig": hx.Hex(sb)}, "true")
 				}
-				w.C.Case(fmt.Sprintf("CAbs %s %s %s (%s) %s", hx.CoqBool(k.Weak), w.P.Coq(k), hx.CoqBytes(hash[:]), a.Coq, real),
+				w.C.Case(fmt.Sprintf("(let h := %s in CAbs %s %s h (%s) %s)", w.P.CB(hash[:]), hx.CoqBool(k.Weak), w.P.Coq(k), a.Coq, real),
 					map[string]interface{}{"kind": "abs", "key": hx.Hex(k.Ser), "sig": hx.Hex(sb), "hash": hx.Hex(hash[:])})
 			}
 		}
